@@ -4,6 +4,8 @@ package readcaching
 
 import (
 	"context"
+	remoteexecution "github.com/bazelbuild/remote-apis/build/bazel/remote/execution/v2"
+	"github.com/buildbarn/bb-storage/pkg/blobstore/slicing"
 
 	vnd "github.com/buildbarn/bb-storage/internal/verifnd"
 	"github.com/buildbarn/bb-storage/internal/verifstub"
@@ -33,9 +35,20 @@ func Verif_C17_U1_ReadCaching() {
 	d := objs[k].Digest
 
 	switch vnd.Choose(3) {
-	case 0: // Get
-		data, err := ba.Get(ctx, d).ToByteSlice(100)
-		vnd.Assert(len(fast.Calls) >= 1 && fast.Calls[0].Op == "Get", "the fast store was not consulted first")
+	case 0: // Get, plain or as a composite read (the child is a digest no store knows as an object)
+		composite := vnd.Choose(2) == 1
+		firstOp := "Get"
+		var data []byte
+		var err error
+		if composite {
+			vnd.Cover("rc-composite")
+			firstOp = "GetFromComposite"
+			child := digest.MustNewDigest("inst", remoteexecution.DigestFunction_MD5, "ffffffffffffffffffffffffffffffff", 1)
+			data, err = ba.GetFromComposite(ctx, d, child, verifWholeSlicer{}).ToByteSlice(100)
+		} else {
+			data, err = ba.Get(ctx, d).ToByteSlice(100)
+		}
+		vnd.Assert(len(fast.Calls) >= 1 && fast.Calls[0].Op == firstOp, "the fast store was not consulted first")
 		if err == nil {
 			vnd.Assert(string(data) == string(objs[k].Data), "Get succeeded with content other than the object's")
 		}
@@ -53,7 +66,13 @@ func Verif_C17_U1_ReadCaching() {
 			vnd.Assert(err != nil && status.Code(err) == codes.Unavailable, "failure of the slow store not surfaced (masked)")
 		case !preSlow[k]:
 			vnd.Cover("rc-neither")
-			vnd.Assert(err != nil && status.Code(err) == codes.NotFound, "object held by neither store is not NOT_FOUND")
+			if composite && fast.FailPut {
+				// a composite read repairs by copying the parent first: the failing cache write may
+				// be reported before the slow store is found to lack the object
+				vnd.Assert(err != nil && (status.Code(err) == codes.NotFound || status.Code(err) == codes.Unavailable), "object held by neither store reported neither as NOT_FOUND nor as the store's failure")
+			} else {
+				vnd.Assert(err != nil && status.Code(err) == codes.NotFound, "object held by neither store is not NOT_FOUND")
+			}
 			vnd.Assert(fast.PutOK == 0 && slow.PutOK == 0, "something was stored although nothing was found")
 		case fast.FailPut:
 			vnd.Cover("rc-cache-write-fails")
@@ -105,4 +124,10 @@ func verifSetHas(s digest.Set, d digest.Digest) bool {
 		}
 	}
 	return false
+}
+
+type verifWholeSlicer struct{}
+
+func (verifWholeSlicer) Slice(b buffer.Buffer, childDigest digest.Digest) (buffer.Buffer, []slicing.BlobSlice) {
+	return b, nil
 }
